@@ -62,6 +62,8 @@ structure WorldObj where
   listeners : Listener.State := {}
   openFlows : Nat := 0          -- flows that have not ended (every scripted flow runs to its end)
   udpSinceBase : Bool := false
+  users : Nat := 0              -- registered users of the server configuration
+  ids : Bool := false           -- the cipher's datagrams carry session and packet ids (2022)
 
 inductive Obj where
   | ssu (o : SsuObj)
@@ -284,6 +286,8 @@ def e2eFault (kind : String) : Option Listener.Fault :=
   | "local-stall" => some .localStall
   | "local-udp-junk" => some .localUdpGarbage
   | "local-udp-short" => some .localUdpGarbage
+  | "quic-stall" => some .tlsStall
+  | "quic-junk" => some .udpGarbage
   | "local-udp-unresolvable" => some .udpTargetUnresolvable
   | _ => none
 
@@ -444,7 +448,9 @@ def step (st : St) (toks : List String) : St × String :=
                 C.sealB k.alg (SsUdp.aesSessionKey C k ctx.key sid) (sidPid.drop 4) [] body))
             | some ipsk =>
               -- a registered user's datagram: header under the server key, identity header naming `password`'s key
-              (st, hexOrDash (C.aesEnc ipsk sidPid ++ SsUdp.withEih C ctx.key sidPid [ipsk] ++
+              -- (`eihfor`: the identity header names another key's owner than the one the body is sealed under)
+              let named := ((kv rest "eihfor").bind Crypto.Base64.decode).getD ctx.key
+              (st, hexOrDash (C.aesEnc ipsk sidPid ++ SsUdp.withEih C named sidPid [ipsk] ++
                 C.sealB k.alg (SsUdp.aesSessionKey C k ctx.key sid) (sidPid.drop 4) [] body))
           | some xa => (st, hexOrDash (rnd ++ C.sealB xa (ctx.key.take 32) rnd [] (sidPid ++ body)))
     | _, _, _, _, _, _ => (st, "bad-op")
@@ -563,7 +569,11 @@ def step (st : St) (toks : List String) : St × String :=
         let udp := match (Consts.modeNames.find? (·.1 == (kv rest "cmode").getD mode)) with
           | some (_, v) => Consts.modeUdp.contains v
           | none => false
-        ({ st with objs := st.objs.insert name (.world { protocol := proto, udp := udp, link := kv rest "link" == some "1" }) }, "ok")
+        let users := match kv rest "users" with
+          | some "-" => 0
+          | some u => (u.splitOn ";").length
+          | none => 0
+        ({ st with objs := st.objs.insert name (.world { protocol := proto, udp := udp, link := kv rest "link" == some "1" || kv rest "link" == some "chop", users := users, ids := cipher.startsWith "2022" }) }, "ok")
       else (st, "err")
     | _, _, _ => (st, "bad-op")
   | "e2e.tcp" :: name :: rest =>
@@ -592,6 +602,17 @@ def step (st : St) (toks : List String) : St × String :=
     | some (.world w) =>
       ({ st with objs := st.objs.insert name (.world { w with udpSinceBase := true }) },
         if !w.udp then "no-udp" else if w.listeners.serves && w.serverUp then "up=ok down=ok stray=0" else "up=diff down=diff stray=0")
+    | _ => (st, "bad-op")
+  | ["e2e.udpowner", name] =>
+    -- two users, one session id: the association follows the user of each accepted datagram (reply sealed for its sender)
+    match st.objs.get? name with
+    | some (.world w) => (st, if w.protocol != "shadowsocks" || !w.udp || w.users < 2 then "n/a" else "a=ok b=ok a=ok")
+    | _ => (st, "bad-op")
+  | ["e2e.udpreplay", name] =>
+    -- a refused duplicate is simply dropped: it does not end the session or disturb the packets that follow (C11, C08)
+    match st.objs.get? name with
+    | some (.world w) => ({ st with objs := st.objs.insert name (.world { w with udpSinceBase := true }) },
+        if w.protocol != "shadowsocks" || !w.udp || !w.ids then "n/a" else if w.listeners.serves && w.serverUp then "ok" else "lost:[1,2,3,4,5]")
     | _ => (st, "bad-op")
   | "e2e.ssid" :: name :: _ =>
     -- fresh randomness per association: no (server session id, packet id) pair on two replies
